@@ -16,6 +16,8 @@ CONSTANTS
   PullMaxes = {1, 2}
   Advances = {1, 2}
   AckRefs = {1, 2}
+  WalkSizes = {}
+  Reads = FALSE
   MaxOps = 6
   MaxNow = 6
   MaxMsgs = 2
